@@ -358,6 +358,17 @@ def is_panic(e):
     return type(e).__name__ == "PanicException"
 
 
+def must_work(prop, sig, what, fn):
+    """a call that the documentation promises to succeed: an exception is a violation of `prop`, not a harness error"""
+    try:
+        return fn()
+    except (KeyboardInterrupt, SystemExit, MemoryError, Violation, Discard):
+        raise
+    except BaseException as e:  # noqa: BLE001
+        check(prop, False, sig, "%s raised %s: %s" % (what, type(e).__name__, str(e)[:160]))
+        raise Discard()
+
+
 def expect_error(fn):
     """fn must raise an ordinary Python exception (any kind).  Returns True if it did."""
     try:
@@ -469,12 +480,12 @@ def run_ans(case):
             cmp_export("C01", "ans/family_batch_differs_from_loop", "after encode_reverse(%r, family, params of %r)" % (syms, js))
         elif k == "d1":
             _, g, j = op
-            got = coder.decode(groups[g].concrete[j])
+            got = must_work("C01" if pend else "C10", "ans/decode_raised", "decode(model) with %d pushes pending" % len(pend), lambda: coder.decode(groups[g].concrete[j]))
             do_pop(g, j, int(got), "decode(model)")
             cmp_export("C06", "ans/stream_differs_from_reference", "after decode(model)")
         elif k == "di":
             _, g, j, amt = op
-            got = coder.decode(groups[g].concrete[j], amt)
+            got = must_work("C01" if len(pend) >= amt > 0 else "C10", "ans/decode_raised", "decode(model, %d) with %d pushes pending" % (amt, len(pend)), lambda: coder.decode(groups[g].concrete[j], amt))
             check("C01", len(got) == amt, "ans/decode_amt_wrong_length", "decode(model, %d) returned %d symbols" % (amt, len(got)))
             for x in got.tolist():
                 do_pop(g, j, x, "decode(model, %d)" % amt)
@@ -484,7 +495,7 @@ def run_ans(case):
             js = [j % groups[g].k for j in js]
             if not js or not groups[g].fam_compatible(js):
                 continue
-            got = coder.decode(groups[g].fam, *groups[g].fam_params(js))
+            got = must_work("C01" if len(pend) >= len(js) else "C10", "ans/decode_raised", "decode(family, %d rows) with %d pushes pending" % (len(js), len(pend)), lambda: coder.decode(groups[g].fam, *groups[g].fam_params(js)))
             check("C01", len(got) == len(js), "ans/family_decode_wrong_length", "decode(family, %d rows) returned %d symbols" % (len(js), len(got)))
             for j, x in zip(js, got.tolist()):
                 do_pop(g, j, x, "decode(family, params)")
@@ -534,7 +545,7 @@ def run_ans(case):
                 # the words below the recorded position have changed since: seeking there is not meaningful
                 label("ans:seek_skipped_prefix_changed")
                 continue
-            coder.seek(pos[0], pos[1])
+            must_work("C07", "ans/seek_refused", "seek(%d, %d) to a recorded snapshot" % pos, lambda: coder.seek(pos[0], pos[1]))
             ref.out, ref.x = list(out), x
             # bulk prefix and state are exactly those of the snapshot, hence so are the pending pushes
             pend[:] = npend
@@ -562,6 +573,13 @@ def run_ans(case):
                 good = G.sym(j, 7)
                 ok = expect_error(lambda: coder.encode_reverse(i32([good, s]), G.concrete[j]))
                 what = "encode_reverse([%d, %d], model)" % (good, s)
+            elif form == 3:
+                # a 64-bit array whose second value is an in-support symbol plus 2^32: refused (today: wrong dtype), never narrowed
+                good = G.sym(j, 7)
+                wrapped = G.sym(j, 200) + 2 ** 32
+                ok = expect_error(lambda: coder.encode_reverse(np.array([good, wrapped], dtype=np.int64), G.concrete[j]))
+                what = "encode_reverse(int64 array [%d, %d], model)" % (good, wrapped)
+                s = wrapped
             else:
                 good = G.sym(j, 99)
                 ok = expect_error(lambda: coder.encode_reverse(i32([good, s]), G.fam, *G.fam_params([j, j])))
@@ -577,7 +595,7 @@ def run_ans(case):
     if case.get("finish") == "pop_all" and pend:
         while pend:
             g, j, s, before = pend[-1]
-            got = int(coder.decode(groups[g].concrete[j]))
+            got = int(must_work("C01", "ans/decode_raised", "decode(model) with %d pushes pending" % len(pend), lambda: coder.decode(groups[g].concrete[j])))
             do_pop(g, j, got, "decode(model)")
             exp = coder.get_compressed().tolist()
             check("C01", exp == before, "ans/export_not_restored_after_pop", lambda: "after popping %d: %s, before the push: %s" % (s, hexw(exp), hexw(before)))
@@ -689,6 +707,10 @@ def run_range(case):
             elif form == 1:
                 ok = expect_error(lambda: enc.encode(i32([s, G.sym(j, 7)]), G.concrete[j]))
                 what = "encode([%d, ..], model)" % s
+            elif form == 3:
+                wrapped = G.sym(j, 200) + 2 ** 32
+                ok = expect_error(lambda: enc.encode(np.array([wrapped, G.sym(j, 7)], dtype=np.int64), G.concrete[j]))
+                what = "encode(int64 array [%d, ..], model)" % wrapped
             else:
                 ok = expect_error(lambda: enc.encode(i32([s, G.sym(j, 7)]), G.fam, *G.fam_params([j, j])))
                 what = "encode([%d, ..], family, params)" % s
@@ -751,7 +773,7 @@ def run_range(case):
         if not snaps:
             break
         idx, pos = snaps[sk % len(snaps)]
-        dec.seek(pos[0], pos[1])
+        must_work("C07", "range/seek_refused", "seek to the snapshot taken before symbol %d" % idx, lambda: dec.seek(pos[0], pos[1]))
         label("range:seek")
         i = idx
         while i < len(msg):
@@ -1180,7 +1202,7 @@ def ans_case(draw):
         elif k in ("seek", "badseek"):
             ops.append([k, draw(small)])
         elif k == "bad":
-            ops.append([k, g, j, draw(st.integers(0, 5)), draw(st.integers(0, 2))])
+            ops.append([k, g, j, draw(st.integers(0, 5)), draw(st.integers(0, 3))])
         else:
             ops.append([k])
     return {"prop": PROP, "views": draw(views_s), "kind": "ans", "groups": gs, "init": init, "ops": ops, "finish": "reencode" if bitsback else draw(st.sampled_from(["pop_all", "pop_all", "none"])),
@@ -1205,7 +1227,7 @@ def range_case(draw):
         elif k == "insp":
             ops.append([k, draw(small)])
         elif k == "bad":
-            ops.append([k, g, j, draw(st.integers(0, 5)), draw(st.integers(0, 2))])
+            ops.append([k, g, j, draw(st.integers(0, 5)), draw(st.integers(0, 3))])
         else:
             ops.append([k])
     return {"prop": PROP, "views": draw(views_s), "kind": "range", "groups": gs, "ops": ops, "dec": draw(st.integers(0, 1)), "tail": [],
